@@ -11,7 +11,8 @@ prints abstract schemas as FCP text, and converts values
 import struct
 import sys
 
-REPO = "/repo"
+import os as _os
+REPO = _os.environ.get("FCP_REPO", "/repo")      # background sweeps run against a snapshot of /repo
 
 
 def setup_repo_path():
